@@ -28,6 +28,7 @@ THEOREMS = [
     "swap_spec",
     "convert_carries_cutoff",
     "increaseCutoffTo_monotone",
+    "copy_identity",
     "pair_action_invariant",
     "pair_history_invariant",
 ]
@@ -50,6 +51,10 @@ RULE = ("random TFIM graphs (2..6 spins, chain/ring/chord, J of both signs, dyad
         "above the current cutoff (kind `inccut`), set_cutoff / trait set_op_cutoff upwards only (kind `setcut`; lowering through the raw "
         "setters is the caller's own doing, outside the property); oracle right after the call: cutoff == max(previous, c), container padded "
         "and never shrunk, n unchanged and <= cutoff. "
+        "Copies of a running sampler inside the step scenarios and in cold-then-hot runs (large beta, then small beta, so that n is below its "
+        "all-time maximum while the cutoff must stay): clone() of both samplers, serde round trip of the sampler with its rng (both), the RNG-less "
+        "SerializeQmcGraph + into_qmc(rng) form (Ising); kind `copy`, oracle: the copy reports the same cutoff, container, occupied slots and n as "
+        "the original; both the copy and the original keep stepping under the step oracles. "
         "After every real step one `step` case (prev cutoff, prev container length, n -> cutoff, container length) and one `sweep` "
         "case (slot occupancy before/after) are compared with the model rule. Non-trivial = the cutoff grew or n > 0 "
         "(tempering: replicas had different cutoffs); distinct = distinct case line.")
